@@ -5084,6 +5084,10 @@ class Entity(object, metaclass=EntityMeta):
                             reverse.reverse_remove((val,), obj, undo_funcs)
                         else: throw(NotImplementedError)
 
+                # unlinking the related objects can have modified (and queued) this object itself,
+                # e.g. when it is an item of its own collection
+                status = obj._status_
+                save_pos = obj._save_pos_
                 # registered only now: the object is queued after its cascaded dependents, so its undo
                 # (which pops the queue) has to run before theirs
                 undo_funcs.append(undo_func)
